@@ -22,6 +22,7 @@ is counted as trivial.
 """
 import hashlib
 import json
+import os
 import random
 
 from rv import formats
@@ -38,7 +39,7 @@ ASSUMPTIONS = ["SHA-256 digests stand for the dump bytes", "sorted means Python'
                "there order is content"]
 REQUIRED_REACH = ["images.Images.serialize", "composeinfo.Variant.serialize", "composeinfo.VariantPaths.serialize",
                   "common.SortedDict.keys", "treeinfo.Tree.serialize", "treeinfo.Variants.serialize", "common.MetadataBase.build_file"]
-REQUIRED_MONITORS = ["same-process-digests-equal", "across-processes-digests-equal", "json-canonical-form", "ini-sorted",
+REQUIRED_MONITORS = ["path-holds-exactly-the-dump", "same-process-digests-equal", "across-processes-digests-equal", "json-canonical-form", "ini-sorted",
                      "repeated-dumps-equal"]
 CLASS_FLOORS = {"order-varied-composeinfo": 10, "order-varied-images": 10, "order-varied-rpms": 10, "order-varied-modules": 5,
                 "order-varied-extra_files": 3, "order-varied-treeinfo": 10, "image-set-order-varied": 10}
@@ -130,15 +131,24 @@ def modify(fmt, obj, D):
 
 def check_dump_history(ctx, pms, fmt, D, case, seed_a, seed_b):
     """Bytes do not depend on how often the object was dumped before: dump, modify, dump again == fresh, modify, dump."""
+    path = os.path.join(ctx.scratch, "c08-dump-history")
+    at_path = None
     try:
         used = formats.build(pms, fmt, D, seed_a)
         used.dumps()
-        used.dumps()
+        t_before = used.dumps()
+        # the path the object is written to again later holds its earlier, LONGER state
+        with open(path, "w") as f:
+            f.write(t_before + "\n" + t_before[-200:])
+        used.dump(path)
         fresh = formats.build(pms, fmt, D, seed_b)
         modify(fmt, used, D)
         modify(fmt, fresh, D)
         try:
             t_used = used.dumps()
+            used.dump(path)
+            with open(path) as f:
+                at_path = f.read()
         except Exception as e:
             t_used = "raised %s" % type(e).__name__
         try:
@@ -148,6 +158,14 @@ def check_dump_history(ctx, pms, fmt, D, case, seed_a, seed_b):
     except Exception as e:
         ctx.note_add("dump_history_case_skipped")
         return
+    if at_path is not None:
+        bad = at_path != t_used
+        ctx.monitor("path-holds-exactly-the-dump", fired=bad)
+        if bad:
+            ctx.violation("path-holds-exactly-the-dump", "the bytes written do not depend on how often the object was dumped before - also "
+                          "at a path that holds an earlier (longer) dump of it", case,
+                          observed="%d bytes at the path, ending %r" % (len(at_path), at_path[-60:]),
+                          expected="%d bytes, ending %r" % (len(t_used), t_used[-60:]))
     bad = t_used != t_fresh
     ctx.monitor("independent-of-earlier-dumps", fired=bad)
     if bad:
